@@ -85,6 +85,9 @@ func registerTime(t map[string]intrinsic) {
 	t["(time.Time).Round"] = ident0
 	t["(time.Time).UTC"] = ident0
 	t["(time.Time).Local"] = ident0
+	t["(time.Time).Format"] = func(ex *Exec, caller *frame, fn *ssa.Function, args []Value) (Value, *goPanic) {
+		return ex.mkStr("<time>"), nil
+	}
 	t["(time.Time).String"] = func(ex *Exec, caller *frame, fn *ssa.Function, args []Value) (Value, *goPanic) {
 		return ex.mkStr("<time>"), nil
 	}
